@@ -57,6 +57,15 @@ namespace vc
             "sz", sz);
     }
 
+    void elem_construct_nt(const void* self, const char* kind, const void* src, std::size_t sz) noexcept
+    {
+        Globals& g    = G();
+        long     keep = g.countdown;
+        g.countdown   = 0; // this element type cannot throw
+        elem_construct(self, kind, src, sz);
+        g.countdown = keep;
+    }
+
     void elem_destroy(const void* self, bool intact) noexcept
     {
         Globals& g  = G();
@@ -448,6 +457,7 @@ namespace vc
                                            et == "e8"    ? make_typed_e8() :
                                            et == "e12"   ? make_typed_e12() :
                                            et == "e16"   ? make_typed_e16() :
+                                           et == "e8n"   ? make_typed_e8n() :
                                                            nullptr);
             if (!be || !typed)
             {
